@@ -12,7 +12,6 @@ import (
 	"com.tuntun.rangers/node/src/common"
 	"com.tuntun.rangers/node/src/storage/account"
 	"com.tuntun.rangers/node/src/storage/rlp"
-	"golang.org/x/crypto/sha3"
 )
 
 const (
@@ -23,7 +22,9 @@ const (
 
 var (
 	emptyRoot   = common.HexToHash("56e81f171bcc55a6ff8345e692c0f86e5b48e01b996cadc001622fb5e363b421")
-	sha3Empty   = common.Hash(sha3.Sum256(nil)) // account.emptyData / emptyCode (NIST SHA3-256 of "")
+	// account.emptyData / emptyCode = sha3.Sum256(nil) = NIST SHA3-256 of "" (the translator
+	// checks the initialiser text; the constant is spelled out to keep go.mod untouched)
+	sha3Empty = common.HexToHash("a7ffc6f8bf1ed76651c14756a061d662f580ff4de43b49fa82d80a4b80f8434a")
 	keccakEmpty = common.HexToHash("c5d2460186f7233c927e7db2dcc703c0e500b653ca82273b7bfad8045d85a470")
 )
 
